@@ -37,3 +37,15 @@ func (r *Routers) ZZHas(domain, location, user string) bool {
 	_, ok := r.exist(domain, location, user)
 	return ok
 }
+
+// ZZRouteUsername returns the Username of the RouteConfig registered for exactly this triple ("" + false if none).
+func (r *Routers) ZZRouteUsername(domain, location, user string) (string, bool) {
+	vr, ok := r.exist(domain, location, user)
+	if !ok {
+		return "", false
+	}
+	if rc, ok := vr.payload.(*RouteConfig); ok {
+		return rc.Username, true
+	}
+	return "?", true
+}
